@@ -25,6 +25,7 @@ var (
 	ShardStr = flag.String("shard", "0/1", "i/n")
 	Out      = flag.String("out", "", "shard result file")
 	ReplayF  = flag.String("replay", "", "artifact to replay")
+	ClaimDir = flag.String("claimdir", "", "directory for dynamic subtree claiming between shards")
 	Budget   = flag.Duration("budget", 0, "wall clock budget for this shard (0 = tier default)")
 )
 
@@ -88,6 +89,13 @@ type R struct {
 	vsigs      map[string]bool
 	start      time.Time
 	deadline   time.Time
+	muted      bool
+}
+
+func (r *R) mute(m bool) {
+	r.mu.Lock()
+	r.muted = m
+	r.mu.Unlock()
 }
 
 // New creates a collector.
@@ -137,6 +145,9 @@ func Hash(parts ...any) string {
 func (r *R) Eval(scenario, outcome, nontrivial string) {
 	r.mu.Lock()
 	defer r.mu.Unlock()
+	if r.muted {
+		return
+	}
 	r.res.Evaluations++
 	r.res.Scenarios[scenario]++
 	if outcome != "" {
@@ -151,6 +162,9 @@ func (r *R) Eval(scenario, outcome, nontrivial string) {
 func (r *R) Sample(s any) {
 	r.mu.Lock()
 	defer r.mu.Unlock()
+	if r.muted {
+		return
+	}
 	if len(r.res.Samples) < 6 {
 		r.res.Samples = append(r.res.Samples, s)
 	}
@@ -229,6 +243,8 @@ func (r *R) Determinism(s string) { r.res.Determinism = s }
 func (r *R) Run(e *explore.Explorer) {
 	i, n := Shard()
 	e.Shard, e.Shards = i, n
+	e.Mute = r.mute
+	e.ClaimDir = *ClaimDir
 	if e.Deadline.IsZero() {
 		e.Deadline = r.deadline
 	}
@@ -360,6 +376,8 @@ func (r *R) SelfCheck(t *testing.T, sc Scenario, reset func()) {
 		}
 		return f.Signature
 	}
+	r.mute(true)
+	defer r.mute(false)
 	if reset != nil {
 		reset()
 	}
